@@ -93,6 +93,8 @@ pub struct Mon {
     pub bracket: HashMap<Pubkey, (refm::RefHealth, refm::RefHealth)>,
     // C12: reference deleverage window per group (window start, whole dollars withdrawn)
     pub delev: HashMap<Pubkey, (i64, u64)>,
+    // C07/C14: banks that were ever killed by bankruptcy
+    pub ever_killed: HashSet<Pubkey>,
 }
 
 /// Program error codes (Anchor custom codes) the monitors need to recognise.
@@ -156,6 +158,9 @@ impl Mon {
         if self.on.iter().any(|p| matches!(*p, "C04" | "C05" | "C07" | "C09" | "C10" | "C11" | "C12")) {
             self.risk_on_ix(w, v, &info);
         }
+        if self.on.iter().any(|p| matches!(*p, "C07" | "C14")) {
+            self.killed_forever(&info);
+        }
         if self.on.iter().any(|p| matches!(*p, "C08" | "C12" | "C13" | "C14" | "C19")) {
             self.admin_on_ix(w, v, &info);
         }
@@ -213,6 +218,31 @@ impl Mon {
         }
         if self.en("C16") {
             self.c16_global(w);
+        }
+    }
+
+    /// A bank killed by bankruptcy stays shut: no financial instruction ever succeeds on it again
+    /// and it never shows another state.
+    fn killed_forever(&mut self, info: &IxInfo) {
+        let financial = matches!(info.kind, Kind::Deposit | Kind::Withdraw | Kind::Borrow | Kind::Repay | Kind::Liquidate | Kind::HandleBankruptcy);
+        let n = if info.kind == Kind::Liquidate { 2 } else { 1 };
+        for (i, (bk, pre, post)) in info.banks.iter().enumerate() {
+            let killed = |b: &Option<Bank>| b.as_ref().map(|b| b.config.operational_state == BankOperationalState::KilledByBankruptcy).unwrap_or(false);
+            if self.ever_killed.contains(bk) {
+                if financial && i < n {
+                    for p in ["C07", "C14"] {
+                        self.r.violate(p, &format!("{}/{}/accepted-on-bank-previously-killed-by-bankruptcy", p, info.kind.name()), format!("bank {}", bk));
+                    }
+                }
+                if post.is_some() && !killed(post) {
+                    for p in ["C07", "C14"] {
+                        self.r.violate(p, &format!("{}/{}/killed-bank-left-the-killed-state", p, info.kind.name()), format!("bank {}", bk));
+                    }
+                }
+            }
+            if killed(pre) || killed(post) {
+                self.ever_killed.insert(*bk);
+            }
         }
     }
 
